@@ -522,6 +522,15 @@ def stale_length(chk):
                 chk.violation("LengthFieldExact", {"fn": fn, "path": path, "group": "changed-after-construction"},
                               {"what": "content changed after construction; frame produced with a wrong length field",
                                "header": hexs(o[:4]), "datagram_octets": len(o)}, {"kind": "stale", "fn": fn})
+            if path == "codec" and got["ok"]:
+                # the same message object sent again through the same codec after another change: the frame shows the change
+                mutate(obj)
+                again, fresh = enc_codec(obj), enc_direct(obj)
+                chk.case(("resent", fn), nontrivial=True)
+                if again["ok"] and fresh["ok"] and again["oct"] != fresh["oct"]:
+                    chk.violation("OctetsEqualSpec", {"fn": fn, "path": "codec", "group": "same-object-sent-again-after-a-change"},
+                                  {"what": "the second frame of one message object does not carry its current parameters",
+                                   "second_frame": hexs(again["oct"]), "encoding_of_the_object_now": hexs(fresh["oct"])}, {"kind": "stale", "fn": fn})
     chk.extra["changed_after_construction"] = res
 
 
